@@ -179,11 +179,13 @@ func getMinIntType(
 	)
 
 	if nExclusiveMin && nMin != nil {
-		*nMin += 1.0
+		adjusted := *nMin + 1.0
+		nMin = &adjusted
 	}
 
 	if nExclusiveMax && nMax != nil {
-		*nMax -= 1.0
+		adjusted := *nMax - 1.0
+		nMax = &adjusted
 	}
 
 	if nMin != nil && *nMin >= 0 {
